@@ -98,6 +98,10 @@ def prepare_subproject(sub, seed=0):
             rec, out = simulate(p, sub["cfg"], want_snap=False, backward=sub["backward"])
         else:
             rec, out = simulate(p, sub["cfg"], want_snap=False)
+    p._verif_time_before_edit = p.time
+    if sub.get("edit") and out is not None and out.ok:
+        # the finished result is edited (absence steps inserted into its logs) before it is saved
+        D.call(lambda: p.insert_absence_time_list(list(sub["edit"])))
     ow = D.call(lambda: p.write_simple_json(sub["file"]))
     return p, out, ow
 
